@@ -463,7 +463,8 @@ mod par {
                         ensure!(got == want, "into_par_iter delivers every stored element exactly once");
                     }
                     7 => {
-                        let extra: Vec<(u64, u64)> = (0..s_extra(stop)).map(|j| (want.get(j as usize).copied().unwrap_or(j + 0x7000), j)).collect();
+                        // repeated keys with different values, spread over the input: the last one must win
+                        let extra: Vec<(u64, u64)> = (0..(s_extra(stop) * 40)).map(|j| (want.get((j % 3) as usize).copied().unwrap_or((j % 3) + 0x7000), j)).collect();
                         let mut seqm: std::collections::BTreeMap<u64, u64> = m.iter().map(|e| (e.0, e.1)).collect();
                         for (k, v) in extra.iter() {
                             seqm.insert(*k, *v);
@@ -473,6 +474,9 @@ mod par {
                         got.sort();
                         let w: Vec<(u64, u64)> = seqm.into_iter().collect();
                         ensure!(got == w, "par_extend gives the same result as sequential extend");
+                        let fp: HashMap<u64, u64, IdBuild> = extra.clone().into_par_iter().collect();
+                        let fs: HashMap<u64, u64, IdBuild> = extra.iter().copied().collect();
+                        ensure!(fp == fs, "from_par_iter gives the same result as from_iter (last value per key)");
                     }
                     _ => {
                         let a: HashSet<u64, IdBuild> = want.par_iter().copied().collect();
@@ -746,6 +750,12 @@ mod serd {
                         target.insert(0xDEAD, 1);
                         let mut inp3 = Input { items: out.chunks(2).map(|c| (c[0], c[1])).collect(), pos: 0, hint: None, fail_at: usize::MAX, as_map: true };
                         ensure!(HashMap::deserialize_in_place(&mut inp3, &mut target).is_ok() && target == plain, "deserialize_in_place clears then refills");
+                        // in-place with a lying size hint: bounded reservation, no panic
+                        let mut t2: HashMap<u64, u64, IdBuild> = HashMap::default();
+                        let mut inp4 = Input { items: out.chunks(2).map(|c| (c[0], c[1])).collect(), pos: 0, hint, fail_at: usize::MAX, as_map: true };
+                        let r4 = std::panic::catch_unwind(std::panic::AssertUnwindSafe(|| HashMap::deserialize_in_place(&mut inp4, &mut t2).is_ok()));
+                        ensure!(r4.unwrap_or(false) && t2 == plain, "map deserialize_in_place with any claimed length succeeds");
+                        ensure!(t2.capacity() <= 2 * 8192 + 2 * k, "map deserialize_in_place: reserved capacity bounded whatever the input claims");
                     }
                     Err(_) => ensure!(fail_at <= k, "deserialize fails only on an input error"),
                 }
@@ -764,6 +774,12 @@ mod serd {
                         let mut inp2 = Input { items: out.iter().map(|x| (*x, 0)).collect(), pos: 0, hint: Some(out.len()), fail_at: usize::MAX, as_map: false };
                         let back: Result<HashSet<u64, IdBuild>, DeError> = HashSet::deserialize(&mut inp2);
                         ensure!(back.map(|b| b == plain).unwrap_or(false), "deserialize(serialize(set)) == set");
+                        let mut t2: HashSet<u64, IdBuild> = HashSet::default();
+                        t2.insert(0xDEAD);
+                        let mut inp4 = Input { items: out.iter().map(|x| (*x, 0)).collect(), pos: 0, hint, fail_at: usize::MAX, as_map: false };
+                        let r4 = std::panic::catch_unwind(std::panic::AssertUnwindSafe(|| HashSet::deserialize_in_place(&mut inp4, &mut t2).is_ok()));
+                        ensure!(r4.unwrap_or(false) && t2 == plain, "set deserialize_in_place clears then refills, with any claimed length");
+                        ensure!(t2.capacity() <= 2 * 8192 + 2 * k, "set deserialize_in_place: reserved capacity bounded whatever the input claims");
                     }
                     Err(_) => ensure!(fail_at <= k, "set deserialize fails only on an input error"),
                 }
